@@ -243,6 +243,25 @@ class Probe:
                     got = stacked[:, ci] if cfg.pt else stacked[ci]
                     if struct_diff(got, mine):
                         self.problems.append(('sampler.%s differs from chain %d .%s' % (name, ci, name), dict(chain=ci)))
+        # sampler-level current_*: one entry per (temperature,) chain, equal to that level's own current_*
+        try:
+            cur = dict(positions=sampler.current_positions, stats=sampler.current_stats)
+            if sampler.chains[0].hasblobs:
+                cur['blobs'] = sampler.current_blobs
+        except Exception as e:      # noqa
+            self.problems.append(('sampler.current_* raised %r' % (e,), dict(ntemps=cfg.ntemps, nchains=cfg.nchains, pt=cfg.pt)))
+            cur = {}
+        for what, d in cur.items():
+            for ci, ch in enumerate(sampler.chains):
+                for t, lv in enumerate(self.levels(ch)):
+                    mine = dict(positions=lv.current_position, stats=lv.current_stats, blobs=lv.current_blob if what == 'blobs' else None)[what]
+                    for k in mine:
+                        if k == '_state':
+                            continue
+                        got = d[k][t, ci] if cfg.pt else d[k][ci]
+                        if struct_diff(float(got), float(mine[k])):
+                            self.problems.append(('sampler.current_%s[%r] differs from the current %s of chain %d level %d' % (what, k, what, ci, t),
+                                                  dict(chain=ci, level=t)))
         # pre-swap record rule: accepted step records the proposal, rejected repeats previous (before any sweep of that iteration)
         if op[0] == 'run' and op[1]:
             for ci, ch in enumerate(sampler.chains):
@@ -280,7 +299,7 @@ class Probe:
             # schedule: iterations stepped during this op
             lv0 = ch.chains[0]
             its = [r['iteration_after'] for r in tracer.steps.get(id(lv0), [])[-op[1]:]] if op[1] else []
-            want = [i for i in its if i % cfg.si == 0]
+            want = [i for i in its if i % cfg.si == 0] if cfg.ntemps > 1 else []       # a single level has nothing to exchange
             got = [r['iteration'] for r in new]
             if want != got:
                 self.problems.append(('sweeps happened at iterations %s, multiples of the swap interval %d stepped were %s'
@@ -321,6 +340,11 @@ class Probe:
             since = [r for r in sws if r['iteration'] > lastclear and r['iteration'] <= ch.iteration]
             # (after a set_state the iteration counter may repeat; only count sweeps after the last clear/set_state event)
             since = since[-len([i for i in range(lastclear + 1, ch.iteration + 1) if i % cfg.si == 0]):] if since else []
+            if cfg.ntemps == 1:
+                # documented: no swap history with a single temperature
+                if ch.temperature_swaps is not None or ch.temperature_acceptance is not None or since:
+                    self.problems.append(('a single-temperature chain reports a swap history', dict(chain=ci)))
+                continue
             try:
                 ts = ch.temperature_swaps.T
                 ta = ch.temperature_acceptance.T
